@@ -338,6 +338,27 @@ def _tail_records(trace, n):
 
 
 # ---------------------------------------------------------------------------- fixtures
+def curved_files(ctx, n):
+    """Seeded curved worlds (worlds.py curved_world: spheres / cylinders inside boxes placed with arbitrary
+    rotations, reflections and translations, up to three levels), built through orangeinp by `vnav dump`
+    and written as ordinary .org.json files for the fixture pipeline."""
+    vlib.build(["vnav"])
+    d = ctx.path("curved")
+    os.makedirs(d, exist_ok=True)
+    out = []
+    for i in range(n):
+        w = W.curved_world(ctx.seed + i)
+        src = os.path.join(d, w["name"] + ".json")
+        dst = os.path.join(d, w["name"] + ".org.json")
+        with open(src, "w") as fh:
+            json.dump(w, fh)
+        r = _run_vnav(["dump", src, dst], 300)
+        if r.returncode != 0:
+            raise vlib.Broken("vnav dump of curved world %s failed (exit %d): %s" % (src, r.returncode, (r.stderr or "")[-1500:]))
+        out.append(dst)
+    return out
+
+
 def fixture_files():
     fs = sorted(glob.glob(os.path.join(vlib.REPO, "test/orange/data/*.org.json"))
                 + glob.glob(os.path.join(vlib.REPO, "test/geocel/data/*.org.json")))
